@@ -41,6 +41,7 @@ var optPool = [][]string{
 	{"--multi"}, {"--multi=2"}, {"--cycle"}, {"--no-input"}, {"--no-mouse"}, {"--keep-right"}, {"--hscroll-off=1"}, {"--tabstop=1"}, {"--ellipsis=…"}, {"--highlight-line"},
 	{"--preview=echo {}; cat {f} >/dev/null", "--preview-window=right,50%"}, {"--preview=cat {f}; exec sleep 30.5", "--preview-window=up,3"}, {"--preview=echo {q} {+}", "--preview-window=down,40%,wrap,border-top"},
 	{"--preview=printf 'a\\nb\\nc\\n'", "--preview-window=left,20,border-none"}, {"--preview=echo x", "--preview-window=hidden"}, {"--preview=sleep 0.3; echo {n}", "--preview-window=right,1"}, {"--preview=echo {}; sleep 40.5; echo end", "--preview-window=down,3"},
+	{"--preview=for i in 1 2 3 4 5 6 7 8; do echo line $i; sleep 0.15; done", "--preview-window=right,follow"}, {"--preview=for i in 1 2 3 4 5 6 7 8; do echo $i; sleep 0.2; done", "--preview-window=up,follow,<40(hidden)"}, {"--preview=seq 100; sleep 0.5; seq 100", "--preview-window=follow,wrap"},
 	{"--prompt=プロンプト> "}, {"--ghost=type here"}, {"--track"}, {"--tac"}, {"--no-sort"}, {"--scheme=path"}, {"--ansi"}, {"--read0"}, {"--multi-line"}, {"--tail=5"}, {"--sync"},
 	{"--bind=space:execute-silent(sleep 0.2)"}, {"--bind=f1:reload(sleep 0.4; seq 7)"}, {"--bind=start:reload(sleep 0.3; seq 20)"}, {"--bind=load:first"}, {"--bind=focus:transform-header(echo {n})"}, {"--bind=resize:refresh-preview"},
 	{"--bind=ctrl-t:execute(true)"}, {"--bind=change:reload(sleep 0.2; echo {q}; cat {f})"}, {"--info-command=echo $FZF_POS/$FZF_TOTAL_COUNT"},
@@ -82,6 +83,9 @@ func workerC14(r *vk.Run, w, n int, args []string) {
 	per := sessions/n + 1
 	for i := 0; i < per; i++ {
 		sessionC14(r, rng, i)
+		if i%10 == 3 {
+			tmuxProxySession(r, rng, i)
+		}
 	}
 }
 
@@ -174,12 +178,22 @@ func sessionC14(r *vk.Run, rng *rand.Rand, idx int) {
 	}
 	steps := 5 + rng.Intn(20)
 	situation := "idle"
+	hasPreview := false
+	for _, a := range fzfArgs {
+		if strings.HasPrefix(a, "--preview=") {
+			hasPreview = true
+		}
+	}
 	hadRaw := false
 	for k := 0; k < steps; k++ {
 		switch c := rng.Intn(12); {
 		case c < 4:
 			a := simpleActs[rng.Intn(len(simpleActs))]
-			if rng.Intn(6) == 0 {
+			if hasPreview && rng.Intn(3) == 0 {
+				// a preview command is configured: hide / show / move the window and restart the command
+				// while it is writing
+				a = []string{"toggle-preview", "toggle-preview", "down+toggle-preview", "refresh-preview", "change-preview-window(hidden|)", "up", "toggle-preview+toggle-preview", "preview-bottom"}[rng.Intn(8)]
+			} else if rng.Intn(6) == 0 {
 				a = []string{"put(日本)", "change-query(x y)", "change-prompt(P> )", "change-header(h1\nh2\nh3)", "pos(-1)", "pos(999)", "change-preview-window(up|down|hidden|)", "change-preview(echo {}; cat {f})", "change-multi(1)", "change-nth(2)", "change-ghost(g)", "change-pointer(->)", "transform(echo up)", "transform-query(echo {q}x)", "reload(sleep 0.3; seq 30)", "reload-sync(seq 5)", "execute-silent(sleep 0.3)", "execute(true)", "change-border-label( L )", "change-list-label(LL)", "search(a)", "print(x)+up"}[rng.Intn(22)]
 			}
 			code, err := s.Post(a)
